@@ -337,7 +337,24 @@ def _wrappers_invalid():
         ("ConvolutionCollection: alpha_norms size", lambda: type(ccl)(ccl.atco_inp, ccl.atco_out, gen.plan.alphas, gen.plan.alpha_norms[:-1])),
         ("generator: lmax > grid lmax", lambda: c05.make_gen.__globals__["PySCFNLDFInitializer_bad"]()),
     ]
-    return out[:-1]
+    out = out[:-1]
+    # model evaluators in front of the C squared-exponential kernels: sizes that do not match must be rejected
+    from ciderpress.dft import xc_evaluator as X
+    from ciderpress.models import kernels as K
+
+    rng = np.random.RandomState(3)
+    Xc, al = rng.rand(6, 4), rng.randn(6)
+    sub = K.SubsetRBF([1, 3], length_scale=np.array([0.4, 0.7]))
+    full = K.DiffRBF(length_scale=np.array([0.4, 0.7, 0.5, 0.6]))
+    out += [
+        ("RBFEvaluator: control points wider than the subset kernel", lambda: X.RBFEvaluator(sub, Xc, al)),
+        ("RBFEvaluator: control points narrower than the kernel", lambda: X.RBFEvaluator(full, Xc[:, :3], al)),
+        ("RBFEvaluator: scaled subset kernel, full-width control points", lambda: X.RBFEvaluator(K.DiffConstantKernel(2.0) * sub, Xc, al)),
+        ("SpinRBFEvaluator: control points narrower than the kernel", lambda: X.SpinRBFEvaluator(full, np.stack([Xc[:, :3], Xc[:, :3]]), al)),
+        ("RBFEvaluator: result buffer of the wrong length", lambda: X.RBFEvaluator(full, Xc, al)(rng.rand(5, 4), res=np.zeros(4))),
+        ("RBFEvaluator: derivative buffer of the wrong shape", lambda: X.RBFEvaluator(full, Xc, al)(rng.rand(5, 4), dres=np.zeros((5, 3)))),
+    ]
+    return out
 
 
 def _grids_invalid():
